@@ -108,6 +108,11 @@ func runSolver(ctx context.Context, s solverSpec, script string, timeoutSec int)
 
 // discharge decides one obligation by racing the solvers.
 func discharge(sc *Script, o *Obligation, tier string) {
+	if o.Kind == "bind" {
+		// a clause that no longer connects to the code: failed by construction, no solver involved
+		o.Verdict, o.Solver, o.Output = "unbound", "none", o.Text
+		return
+	}
 	script := sc.text(o, false)
 	want := "unsat"
 	if o.Cover {
